@@ -425,6 +425,38 @@ def random_record(args):
     return recs
 
 
+def far_record(args):
+    """frames near the origin, centers 2^24 away and a unit or two apart: every distance is ~1.7e7 and the gaps
+    between competing centers are of relative size 6e-8 -- far below single-precision resolution, exactly representable
+    in the 64-bit (and int32) types used; the farther of two nearly tied centers is listed first half of the time"""
+    from enspara.cluster import util
+    seed, j = args
+    rng = np.random.RandomState((seed * 7919 + j) % (2 ** 31 - 1))
+    dim = int(rng.choice([1, 2]))
+    N, K = int(rng.randint(1, 9)), int(rng.randint(2, 7))
+    M = 2 ** 24
+    X = rng.randint(0, 4, size=(N, dim))
+    C = rng.randint(0, 4, size=(K, dim))
+    C[:, 0] += M
+    if j % 2 == 0:                              # descending first coordinate: farther centers first
+        C = C[np.argsort(-C[:, 0], kind="stable")]
+    m = ("l1", "linf")[j % 2]
+    dt = ("float64", "int64", "int32")[j % 3] if m == "l1" else ("float64", "int64")[j % 2]
+    xyz = bool(K > N and j % 4 == 1)
+    gen = {"call": "assign_to_nearest_center (far centers)", "seed": seed, "j": j, "metric": m, "dtype": dt, "xyz": xyz,
+           "X": X.tolist(), "C": C.tolist()}
+    try:
+        Xa = X.astype(dt)
+        Ca = C.astype(dt).view(Xyz) if xyz else [r.copy() for r in C.astype(dt)]
+        a, d = util.assign_to_nearest_center(Xa, Ca, _metric_fn(m))
+        rec = lattice_record(m, X.tolist(), C.tolist(), C.tolist(), a, d, None, gen)
+        if not np.array_equal(Xa, X) or not np.array_equal(np.asarray(Ca), C):
+            rec["_modified"] = True
+        return [rec]
+    except Exception as ex:
+        return [{"_raised": "%s: %s" % (type(ex).__name__, ex), "_gen": gen, "metric": m}]
+
+
 # ---------------------------------------------------------------------------
 # thorough: batch reassignment of tiny mdtraj trajectories (B, recorded distance table)
 
@@ -1066,10 +1098,13 @@ def run(ctx):
     ctx.notes["predict_traces_mixed_types"] = sum(1 for r in pred_recs
                                                   if r.get("_gen", {}).get("predict_dtype") != r.get("_gen", {}).get("dtype"))
 
+    n_far = 3000 if thorough else 400
+    far_recs = [x for sub in core.pmap(far_record, [(ctx.seed, j) for j in range(n_far)], procs=PROCS, chunk=100) for x in sub]
+    ctx.notes["far_center_data_sets"] = n_far
     if thorough:
         n_rand = 6000
         rr = core.pmap(random_record, [(ctx.seed, j) for j in range(n_rand)], procs=PROCS, chunk=100)
-        rand_recs = [x for sub in rr for x in sub]
+        rand_recs = [x for sub in rr for x in sub] + far_recs
         ctx.notes["random_data_sets"] = n_rand
         wd = core.scratch("ev_c10md_")
         md_recs = mdtraj_records(ctx.seed, wd)
@@ -1084,7 +1119,7 @@ def run(ctx):
         ctx.notes["mdtraj_traces"] = len(md_recs)
         ctx.notes["mdtraj_reassign_calls"] = sum(1 for r in md_recs if r["_gen"]["call"] == "reassign")
         ctx.notes["mdtraj_batch_reassign_calls"] = sum(1 for r in md_recs if r["_gen"]["call"] == "batch_reassign")
-        judge_assign_traces(ctx, report, d, pred_recs + md_recs, "predict+mdtraj")
+        judge_assign_traces(ctx, report, d, pred_recs + far_recs + md_recs, "predict+far+mdtraj")
     phases["traces_B"] = round(time.time() - t0, 1)
     cpus["traces_B"] = round(cpu() - c0, 1)
     ctx.notes["phase_wall_s"] = phases
@@ -1123,6 +1158,8 @@ def replay(ctx, path):
         elif g["call"] == "KCenters.fit.predict":
             judge_assign_traces(ctx, report, d,
                                 [predict_record(g["metric"], g["train"], g["k"], g["Y"], g["j"], g["ints"])], "replay")
+        elif g["call"].startswith("assign_to_nearest_center (far"):
+            judge_assign_traces(ctx, report, d, far_record((g["seed"], g["j"])), "replay")
         elif g["call"].startswith("assign_to_nearest_center+"):
             judge_assign_traces(ctx, report, d, random_record((g["seed"], g["j"]))[:1], "replay")
         elif g["call"] == "reassign":
